@@ -131,6 +131,10 @@ def main():
     except BaseException as e:
         result = "raised %s" % type(e).__name__
     mark("END")
+    try:
+        os.mkdir(os.path.join(workdir, "RESULT-" + result.replace(" ", "-")))  # (a persistent write fault also hits stdout)
+    except OSError:
+        pass
     sys.stdout.write("RESULT %s\n" % result)
     sys.stdout.flush()
 
